@@ -11,6 +11,10 @@ import UnytModel.DriverBase
 import UnytModel.RegistryC12
 import UnytModel.RegistryC12Conv
 import UnytModel.Generated.RegistryC12Cfg
+import UnytModel.RegistryC12Alias
+import UnytModel.RegistryC12Macro
+import UnytModel.RegistryC12AliasMacro
+import UnytModel.Generated.RegistryC12Alias
 
 namespace Unyt
 open RegC12
@@ -25,6 +29,9 @@ structure C12State where
   ptab : List (String × Except Err (PExpr Float)) := []
   /-- for every `c12.unit` line since the last reset: the string and the heap index it returned -/
   uret : Array (String × Option Nat) := #[]
+  /-- the family of registry objects over shared containers (`c12a.*`), with the regenerated in-place flags -/
+  acfg : ACfg := Generated.registryACfg
+  areg : AState Float := afresh (defaultLut Float)
 
 namespace C12State
 
@@ -80,41 +87,22 @@ def specOut (st : C12State) (op : Op Float) : Out Float :=
 
 def specOp (st : C12State) (op : Op Float) : String := st.outStr (st.specOut op)
 
-/-- `r.modify(sym, unyt_quantity(v, q, registry=r))` as the machine steps it performs
-    (array.py / unit_registry.py:212-215): build the quantity's unit from the string `q` in this
-    registry, then `modify` with the MKS value `v * scale(q)` and the unit's dimensions.
-    The spec-side contents take the value from what `q` denotes in `fresh contents`. -/
-def modifyByQuantity (st : C12State) (sym : String) (v : Float) (q : String) : C12State × String :=
-  let specU := st.specOut (.unit q)
-  let (st1, safe1, o1) := st.doOp' (.unit q) false
-  match o1 with
-  | .unit _ u =>
-    let (st2, safe2, o2) := st1.doOp' (.modifyQ sym (v * u.scale) u.dim true) false
-    let c' := match specU with
-      | .unit _ u' => specStep st.contents (.modifyQ sym (v * u'.scale) u'.dim true)
-      | _ => st.contents
-    let st3 := { st2 with contents := c' }
-    (st3, st3.reply (safe1 && safe2) o2)
-  | o => (st1, st1.reply safe1 o)
+/-- a reading edit (`RegistryC12Macro`): the machine runs `mstep` (the definitions `C12_reading_edits_full` is
+    about), the guard is `safeRun` over the primitive calls it performs, the spec-side contents change as a FRESH
+    registry holding them would (`mspec`) -/
+def doMacro (st : C12State) (m : MOp Float) : C12State × String :=
+  let safe := safeRun st.cfg st.pre st.parse st.reg (mexpand st.cfg st.pre st.parse st.reg m)
+  let (reg', out) := mstep st.cfg st.pre st.parse st.reg m
+  let st' := { st with reg := reg', contents := mspec st.cfg st.pre st.parse st.contents m }
+  (st', st'.reply safe out)
 
-/-- `define_unit(sym, (v, q), prefixable=p, registry=r)` as the machine steps it performs
-    (unit_object.py:1021-1085): `sym in r` (→ `RuntimeError`), the quantity's unit from `q`, `add`. -/
+/-- `r.modify(sym, unyt_quantity(v, q, registry=r))` (unit_registry.py:modify, quantity branch) -/
+def modifyByQuantity (st : C12State) (sym : String) (v : Float) (q : String) : C12State × String :=
+  st.doMacro (.modifyQu sym v q)
+
+/-- `define_unit(sym, (v, q), prefixable=p, registry=r)` (unit_object.py:define_unit) -/
 def defineUnit (st : C12State) (sym : String) (v : Float) (q : String) (p : Bool) : C12State × String :=
-  let specHas := st.specOut (.contains sym)
-  let specU := st.specOut (.unit q)
-  let c' := match specHas, specU with
-    | .bool false, .unit _ u' => specStep st.contents (.add sym ⟨v * u'.scale, u'.dim, 0, p⟩)
-    | _, _ => st.contents
-  let (st1, safe1, o1) := st.doOp' (.contains sym) false
-  match o1 with
-  | .bool true => ({ st1 with contents := c' }, st1.reply safe1 (.err .RuntimeError))
-  | _ =>
-    let (st2, safe2, o2) := st1.doOp' (.unit q) false
-    match o2 with
-    | .unit _ u =>
-      let (st3, safe3, o3) := st2.doOp' (.add sym ⟨v * u.scale, u.dim, 0, p⟩) false
-      ({ st3 with contents := c' }, st3.reply (safe1 && safe2 && safe3) o3)
-    | o => ({ st2 with contents := c' }, st2.reply (safe1 && safe2) o)
+  st.doMacro (.defineUnit sym v q p)
 
 /-- heap indices and expressions of the a-th and b-th `c12.unit` results -/
 def heapPair (st : C12State) (a b : String) : Option (Nat × Nat × UExpr Float × UExpr Float) := do
@@ -158,6 +146,43 @@ def stepC12 (st : C12State) (fields : List String) : Option (C12State × String)
     match parseBool c, parseBool p, parseBool i, parseBool m with
     | some c, some p, some i, some m => some ({ st with cfg := ⟨c, p, i, m⟩ }, "ok")
     | _, _, _, _ => some (st, "bad-op")
+  | ["c12a.acfg"] =>
+    let b := fun (x : Bool) => if x then "1" else "0"
+    some (st, s!"ok\t{b st.acfg.derivedInPlace}\t{b st.acfg.cacheInPlace}")
+  | ["c12a.setacfg", d, c] =>
+    match parseBool d, parseBool c with
+    | some d, some c => some ({ st with acfg := ⟨d, c⟩ }, "ok")
+    | _, _ => some (st, "bad-op")
+  | ["c12a.reset"] => some ({ st with areg := afresh st.base }, "ok")
+  | ["c12a.copy", i] =>
+    match i.toNat? with
+    | some i => some ({ st with areg := acopy st.areg i }, s!"ok\t{st.areg.handles.length}")
+    | none => some (st, "bad-op")
+  | ["c12a.state"] =>
+    let cells := st.areg.handles.map fun hd =>
+      s!"{hd.cacheRef}:{hd.dsetRef}:{",".intercalate ((st.areg.caches hd.cacheRef).map (·.1))}:{",".intercalate (st.areg.dsets hd.dsetRef)}"
+    some (st, s!"ok\t{"|".intercalate cells}")
+  | ["c12a.modqu", i, sym, v, q] =>
+    match i.toNat?, fb v with
+    | some i, some x =>
+      let (a', out) := amstep st.acfg st.cfg st.pre st.parse st.areg i (.modifyQu sym x q)
+      let st' := { st with areg := a' }
+      some (st', st'.outStr out)
+    | _, _ => some (st, "bad-op")
+  | ["c12a.defunit", i, sym, v, q, p] =>
+    match i.toNat?, fb v, parseBool p with
+    | some i, some x, some pf =>
+      let (a', out) := amstep st.acfg st.cfg st.pre st.parse st.areg i (.defineUnit sym x q pf)
+      let st' := { st with areg := a' }
+      some (st', st'.outStr out)
+    | _, _, _ => some (st, "bad-op")
+  | "c12a.call" :: i :: op :: args =>
+    match i.toNat?, parseOpC12 (op :: args) with
+    | some i, some o =>
+      let (a', out) := astep st.acfg st.cfg st.pre st.parse st.areg i o
+      let st' := { st with areg := a' }
+      some (st', st'.outStr out)
+    | _, _ => some (st, "bad-op")
   | ["c12.parse", q, "atom", s] => some ({ st with ptab := (q, .ok (.atom s)) :: st.ptab }, "ok")
   | ["c12.parse", q, "prod", co, fac] =>
     match fb co, Factors.parse fac with
